@@ -453,5 +453,7 @@ func (s SyscallWithConditions) Assemble(p *Program, action Label) {
 		}
 		p.SetLabel(noMatch)
 	}
+	// The argument checks replaced the syscall number in the accumulator, restore it for the next check.
+	p.instructions = append(p.instructions, bpf.LoadAbsolute{Off: syscallNumOffset, Size: sizeOfUint32})
 	p.SetLabel(nextSyscall)
 }
